@@ -631,8 +631,12 @@ class Engine:
             if isinstance(v, ast.Constant):
                 parts.append(z3.StringVal(v.value))
             else:
-                val = self.eval(v.value, frame)
-                parts.append(self.B.str_of(self, val, frame, loose=True))
+                try:
+                    val = self.eval(v.value, frame)
+                    parts.append(self.B.str_of(self, val, frame, loose=True))
+                except Unsupported:
+                    # message text only: an opaque string (formatting of unsupported sub-expressions)
+                    parts.append(z3.String(self.run.fresh_name("fstr")))
         if not parts:
             return tv_str("")
         if len(parts) == 1:
@@ -915,7 +919,10 @@ class Engine:
             if run.quick_feasible(cond):
                 live.append((cond, r, classes))
         if not live:
-            raise Infeasible()
+            if run.merge_depth > 0 or run.merge_only:
+                # dead context inside a merged expression: any value will do
+                return tv_val(S.fld(attr)(t))
+            return self.dead_value()
         if len(live) == 1:
             cond, r, classes = live[0]
             return self._attr_group(base, r, classes, attr, node, frame)
@@ -1002,10 +1009,10 @@ class Engine:
                 if fr is not None:
                     # field not set yet on a fresh object
                     self.implicit_raise(z3.BoolVal(True), "AttributeError", node, f"unset field {attr}")
-                    raise Infeasible()
+                    return self.dead_value()
                 return self.read_field(base, attr)
             self.implicit_raise(z3.BoolVal(True), "AttributeError", node, f"no attribute {attr} on {cls.name}")
-            raise Infeasible()
+            return self.dead_value()
         if r[0] == "method":
             fi = r[2]
             if fi.kind == "property":
@@ -1086,6 +1093,13 @@ class Engine:
         if self.branch(cond, f"implicit {excname}"):
             raise PyRaise(self.new_exception(excname), self.ct.ext[excname], where=(getattr(node, "lineno", None), what))
 
+    def dead_value(self):
+        """Reached where execution cannot continue: in merged expressions (dead guard) any value
+        will do; on an executed path the path ends."""
+        if self.run.merge_depth > 0 or self.run.merge_only:
+            return tv_val(z3.Const(self.run.fresh_name("dead"), S.Val))
+        raise Infeasible()
+
     def new_exception(self, excname, args=()):
         cls = self.ct.ext[excname] if isinstance(excname, str) else excname
         fr = self.run.alloc("obj", cls)
@@ -1121,13 +1135,13 @@ class Engine:
         if isinstance(value, TupleVal):
             if len(value.items) != n:
                 self.implicit_raise(z3.BoolVal(True), "ValueError", node, "unpack")
-                raise Infeasible()
+                return self.dead_value()
             return value.items
         view = self.B.seq_view(self, value)
         if view.concrete is not None:
             if len(view.concrete) != n:
                 self.implicit_raise(z3.BoolVal(True), "ValueError", node, "unpack")
-                raise Infeasible()
+                return self.dead_value()
             return list(view.concrete)
         self.implicit_raise(view.length != n, "ValueError", node, "unpack")
         return [view.nth(z3.IntVal(k)) for k in range(n)]
@@ -1633,6 +1647,7 @@ class Run:
         self.root_bindings = {}
         self.func_attrs = {}
         self.inc = None
+        self.deadline = None
         self.cur_line = None
         self.modifies = ()
         self.mod_bound = {}
@@ -1693,6 +1708,10 @@ class Run:
             self.cursor += 1
             self.decisions.append(idx)
             return idx
+        if self.deadline is not None:
+            import time as _t
+            if _t.time() > self.deadline:
+                raise Unsupported("symbolic execution time budget exceeded")
         feas = [i for i in range(n) if self.quick_feasible(conds[i])]
         if not feas:
             raise Infeasible()
@@ -1872,13 +1891,15 @@ class Run:
 
     # -- type hints derived from facts -------------------------------------
     def _entails(self, cond):
-        key = ("ent", cond.get_id(), len(self.facts))
+        key = ("ent", cond.get_id(), len(self.facts), tuple(c.get_id() for c in self.cond_stack))
         c = getattr(self, "_ent_cache", None)
         if c is None:
             c = self._ent_cache = {}
         if key in c:
             return c[key]
         r = not self.quick_feasible(z3.Not(cond))
+        if r and not self.quick_feasible(cond):
+            r = False     # dead context (guards contradict the path): nothing is known here
         c[key] = r
         return r
 
